@@ -148,7 +148,6 @@ func travWorker(c *evid.Ctx, prop string) {
 		c04server(c)
 	}
 	// Evidence floor: a run that observed nothing decides nothing.
-	if c.Counter("stall rendezvous checked") == 0 || c.Counter("scheduled completions") == 0 {
-		c.Inconclusive("no stall or no completion observed")
-	}
+	c.Floor("stall rendezvous checked", 1)
+	c.Floor("scheduled completions", 1)
 }
